@@ -540,7 +540,7 @@ class ProgGen:
     """Generator of program specs.  `clean=True`: no function raises and every tasklet operation is valid
     (the run can complete); `clean=False`: raising functions and invalid tasklet operations may occur."""
 
-    def __init__(self, rng, ntasks, clean=True, rich=0.6, p_raise=0.0, use_map=False, chainy=0.5, map_heavy=False):
+    def __init__(self, rng, ntasks, clean=True, rich=0.6, p_raise=0.0, use_map=False, chainy=0.5, map_heavy=False, single_path=0.0):
         self.rng = rng
         self.n = ntasks
         self.clean = clean
@@ -548,6 +548,8 @@ class ProgGen:
         self.p_raise = p_raise
         self.use_map = use_map or map_heavy
         self.map_heavy = map_heavy
+        self.single_path = single_path      # probability that a task gets exactly one task-carrying argument: every dependency edge
+                                            # then enters through ONE syntactic path, so an edge the walk drops is not masked by another
         self.chainy = chainy
         self.fns = {}
         self.tasks = []
@@ -589,7 +591,23 @@ class ProgGen:
         return [j for j in range(i) if self.kind_of_task(j)[0] in ('list', 'tuple', 'dict')]
 
     def gen_tasklet(self, i, depth):
-        """-> (argspec, shape) shape: 'h' (free object), 'int', ('seq', n), None (unknown/invalid)"""
+        """a tasklet over earlier tasks, possibly a chain: further links on top of a first link (Tasklet(x, wrap) is valid on
+        anything, and its 1-tuple can be indexed / sliced / checked again)"""
+        rng = self.rng
+        a = self.gen_tasklet1(i, depth)
+        inner_needs_a_task = a[0] == 'getitem' and a[2][0] != 'val'      # the first link's index is itself a task(let)
+        if rng.random() < (0.6 if inner_needs_a_task else 0.25):
+            a = ['fun', a, ['wrap']]
+            r = rng.random()
+            if r < 0.4:
+                a = ['getitem', a, ['val', ['i', rng.choice([0, -1])]]]
+            elif r < 0.55:
+                a = ['fun', a, ['getcheck', 0, 1]]
+            elif r < 0.65:
+                a = ['getitem', a, ['val', ['s', None, None, None]]]
+        return a
+
+    def gen_tasklet1(self, i, depth):
         rng = self.rng
         cands = self.indexable(i)
         if not cands or (not self.clean and rng.random() < 0.15):
@@ -616,9 +634,11 @@ class ProgGen:
                     idx = rng.randrange(-m, m)
                     return ['getitem', first, ['val', ['i', idx]]]
                 return first
-            if r < 0.55 and depth > 0 and n > 1:
+            if r < (0.70 if self.single_path else 0.55) and depth > 0 and n > 1:
                 # task(let)-valued index: base[u[p]] where u[p] is an int < n
                 us = [u for u in self.indexable(i) if self.kind_of_task(u)[0] in ('list', 'tuple') and self.kind_of_task(u)[1] >= 1]
+                if len(us) > 1:
+                    us = [u for u in us if u != j]          # an index coming from ANOTHER task
                 if us:
                     u = rng.choice(us)
                     p = rng.randint(1, self.kind_of_task(u)[1])
@@ -720,6 +740,16 @@ class ProgGen:
         while len(self.tasks) < self.n:
             i = len(self.tasks)
             k = self.pick_fn()
+            if i > 1 and rng.random() < self.single_path:
+                rich, self.rich = self.rich, 1.0
+                one = self.gen_tasklet(i, 2) if rng.random() < 0.6 else self.gen_arg(i)
+                self.rich = rich
+                args = [['val', ['i', i]], one] if rng.random() < 0.5 else [one]
+                kwargs = [['a', ['val', _gen_plain(rng, 1)]]] if rng.random() < 0.2 else []
+                if rng.random() < 0.3:
+                    args, kwargs = args[:-1], [['b', one]]
+                self.tasks.append({'fn': k, 'args': args, 'kwargs': kwargs})
+                continue
             nargs = rng.choice([0, 1, 1, 2, 2, 3]) if i > 0 else rng.choice([0, 1])
             args = [self.gen_arg(i) for _ in range(nargs)]
             names = sorted(rng.sample(KWNAMES[:3], rng.choice([0, 0, 1, 2]))) if i > 0 else []
@@ -760,6 +790,28 @@ def chain_program(n, kinds=None, fail=None):
         if fail is not None and i in fail:
             fns[str(i)] = ['raise']
         tasks.append({'fn': i, 'args': [['val', ['i', i]]] + ([['task', i - 1]] if i else []), 'kwargs': []})
+    return {'fns': fns, 'tasks': tasks}
+
+
+def deep_chain_program(n, order=('R', 'D', 'C', 'U')):
+    """a chain of n trivial tasks c0 <- c1 <- ... (each takes element 1 of the previous one, so the values do not nest), then in the given
+    order: R (raises), D(R), C(c_{n-1}[1]) and the unrelated U.  Meant to be run with the chain already stored and a lowered recursion limit:
+    anything that walks the chain recursively while handling R's failure breaks."""
+    fns = {'0': ['list', 1], '1': ['raise'], '2': ['app'], '3': ['app'], '4': ['app']}
+    tasks = []
+    for i in range(n):
+        tasks.append({'fn': 0, 'args': [['val', ['i', i]]] + ([['getitem', ['task', i - 1], ['val', ['i', 1]]]] if i else []), 'kwargs': []})
+    pos = {}
+    for name in order:
+        pos[name] = len(tasks)
+        if name == 'R':
+            tasks.append({'fn': 1, 'args': [['val', ['i', 0]]], 'kwargs': []})
+        elif name == 'D':
+            tasks.append({'fn': 2, 'args': [['task', pos['R']]], 'kwargs': []})
+        elif name == 'C':
+            tasks.append({'fn': 3, 'args': [['getitem', ['task', n - 1], ['val', ['i', 1]]]], 'kwargs': []})
+        else:
+            tasks.append({'fn': 4, 'args': [['val', ['i', 7]]], 'kwargs': []})
     return {'fns': fns, 'tasks': tasks}
 
 
@@ -1480,6 +1532,21 @@ def operator_action(rt, what):
 
 def run_scenario(sc):
     """Execute a scenario with the real code.  Returns a Result; raises HarnessError when the HARNESS failed."""
+    slack = sc.get('recursion_slack')
+    if not slack:
+        return _run_scenario(sc)
+    # run under a lowered recursion limit (scenario option): current depth of this thread + slack; worker threads are shallower
+    import inspect
+    import sys
+    old = sys.getrecursionlimit()
+    sys.setrecursionlimit(len(inspect.stack()) + int(slack))
+    try:
+        return _run_scenario(sc)
+    finally:
+        sys.setrecursionlimit(old)
+
+
+def _run_scenario(sc):
     res = Result()
     with Backend(sc.get('backend', 'dict')) as backend:
         rt = Runtime(sc, backend)
